@@ -16,6 +16,9 @@ Case (JSON):
   {"stream": "grid"|"agg"|"unjudged", "vt": "o"|"c", "tentative": bool,
    "declare": 0 (not declared) | 1 (the interface itself) | 2 (an interface derived from it),
    "cand": "instance" | "class" (verifyClass) | "classobj" (verifyObject on a class that directlyProvides),
+   "funcs": {"f0": "<parameter list>"}   function objects created once per case and shared by all steps,
+   "history": [step, ...]   earlier verifications (same shape as a case, no history of their own) run first in
+          the same process; "set_defaults": {"f0": k} reassigns f0.__defaults__ to k values before a step,
    "pre": [[ "I"|"ISub"|"IBase", "getitem"|"contains"|"get"|"query"|"direct", name ], ...]  single-name
           look-ups performed on the interface / a derived / the base interface BEFORE verifying,
    "elems": [{"level": "base"|"own"|"override",
@@ -23,7 +26,9 @@ Case (JSON):
               "base_params": "<parameter list>"   (override only: what the base interface says)
               "impl": {"kind": "missing"|"method"|"instfunc"|"classmethod"|"staticmethod"|"builtin"|
                                "methdesc"|"property"|"instproperty"|"callable"|"partial"|"other"|"value",
-                       "params": "<parameter list incl. self/cls where the kind has one>"}}]}
+                               "poolfunc_inst" | "poolfunc_method" (+ "func": name in "funcs"),
+                       "params": "<parameter list incl. self/cls where the kind has one>"},
+              "alias": {...} (see build_iface), "alias_impl": an impl stored under the alias name}]}
 Parameter lists are source text, e.g. "self, p0, p1=None, *va, **kw".
 """
 import _boot
@@ -33,6 +38,7 @@ import types
 
 from zope.interface import Attribute, Interface, directlyProvides, implementer
 from zope.interface.exceptions import Invalid, MultipleInvalid
+from zope.interface.interface import Method
 from zope.interface.verify import verifyClass, verifyObject
 
 EXTRA_KW = "zz_extra"
@@ -44,12 +50,32 @@ class _Callable:
 
 
 def build_iface(case):
-    base_lines, own_lines = [], []
+    """Descriptions may carry a __name__ different from the key they are stored under
+    (el["alias"]): {"how": "word", "name": A}        key = Attribute("A")   (a one-word first argument is the name)
+                   {"how": "reuse", "name": A}       key = IOther["A"]      (a Method defined under another name elsewhere)
+                   {"how": "ctor", "name": A}        key = Method("A")      (no signature information)
+                   {"how": "shared", "with": j}      key_i = key_j = Attribute("a doc")  (element j: {"how": "second", "of": i})"""
+    base_lines, own_lines, other_lines = [], [], []
     for i, el in enumerate(case["elems"]):
         name = "n%d" % i
         d = el["desc"]
+        al = el.get("alias")
 
         def line(params):
+            if al:
+                how = al["how"]
+                if how == "word":
+                    return "    %s = Attribute(%r)" % (name, al["name"])
+                if how == "reuse":
+                    other_lines.append("    def %s(%s): pass" % (al["name"], params))
+                    return "    %s = IOther[%r]" % (name, al["name"])
+                if how == "ctor":
+                    return "    %s = Method(%r)" % (name, al["name"])
+                if how == "shared":
+                    return "    %s = n%d = Attribute('one description under two keys %d')" % (name, al["with"], i)
+                if how == "second":
+                    return None
+                raise ValueError(how)
             if d["kind"] == "attr":
                 return "    %s = Attribute('attribute number %d')" % (name, i)
             return "    def %s(%s): pass" % (name, params)
@@ -65,9 +91,11 @@ def build_iface(case):
             else:
                 base_lines.append("    %s = Attribute('base attribute number %d')" % (name, i))
             own_lines.append(line(d.get("params")))
-    src = "class IBase(Interface):\n%s\nclass I(IBase):\n%s\nclass ISub(I):\n    pass\n" % (
-        "\n".join(base_lines) or "    pass", "\n".join(own_lines) or "    pass")
-    ns = {"Interface": Interface, "Attribute": Attribute}
+    base_lines = [x for x in base_lines if x]
+    own_lines = [x for x in own_lines if x]
+    src = ("class IOther(Interface):\n%s\nclass IBase(Interface):\n%s\nclass I(IBase):\n%s\nclass ISub(I):\n    pass\n" % (
+        "\n".join(other_lines) or "    pass", "\n".join(base_lines) or "    pass", "\n".join(own_lines) or "    pass"))
+    ns = {"Interface": Interface, "Attribute": Attribute, "Method": Method}
     exec(src, ns)
     return ns["I"], ns["ISub"], ns["IBase"], src
 
@@ -93,12 +121,14 @@ def pre_queries(case, ifaces):
             pass
 
 
-def build_candidate(case, I, ISub):
+def build_candidate(case, I, ISub, pool=None):
     lines = []
     inst_attrs = []   # (name, expression) set in the instance __dict__
-    for i, el in enumerate(case["elems"]):
-        name = "n%d" % i
-        im = el["impl"]
+    pool = pool or {}
+    entries = [("n%d" % i, el["impl"]) for i, el in enumerate(case["elems"])]
+    # something stored under the description's own __name__ (not the key): must not matter
+    entries += [(el["alias"]["name"], el["alias_impl"]) for el in case["elems"] if "alias_impl" in el]
+    for name, im in entries:
         k = im["kind"]
         p = im.get("params", "")
         if k == "missing":
@@ -111,6 +141,10 @@ def build_candidate(case, I, ISub):
             lines.append("    @staticmethod\n    def %s(%s): pass" % (name, p))
         elif k == "instfunc":
             inst_attrs.append((name, "lambda_def(%r, %r)" % (name, p)))
+        elif k == "poolfunc_inst":        # a shared function object in the instance dict
+            inst_attrs.append((name, "pool[%r]" % im["func"]))
+        elif k == "poolfunc_method":      # the same function object in the class body
+            lines.append("    %s = pool[%r]" % (name, im["func"]))
         elif k == "builtin":
             lines.append("    %s = len" % name)
         elif k == "methdesc":
@@ -136,7 +170,7 @@ def build_candidate(case, I, ISub):
         exec("def %s(%s): pass" % (name, params), ns2)
         return ns2[name]
 
-    ns = {"_Callable": _Callable, "functools": functools, "lambda_def": lambda_def}
+    ns = {"_Callable": _Callable, "functools": functools, "lambda_def": lambda_def, "pool": pool}
     exec(src, ns)
     C = ns["C"]
     decl = case["declare"]
@@ -210,7 +244,9 @@ def oracle_rows(iface_params, attr):
     return rows
 
 
-def err_desc(e, names):
+def err_desc(e, names, by_desc):
+    """[class, element index, message]; the element is found through the identity of the description
+    the exception carries (its __name__ may differ from the key it is stored under)"""
     cls = type(e).__name__
     idx, mess = -1, ""
     obj = None
@@ -220,15 +256,49 @@ def err_desc(e, names):
         obj = e.method
         mess = e.mess if isinstance(e.mess, str) else "<non-str>"
     if obj is not None:
-        nm = obj if isinstance(obj, str) else getattr(obj, "__name__", None)
-        idx = names.get(nm, -1)
+        if id(obj) in by_desc:
+            idx = by_desc[id(obj)]
+        else:
+            nm = obj if isinstance(obj, str) else getattr(obj, "__name__", None)
+            idx = names.get(nm, -1)
     return [cls, idx, mess]
 
 
+def make_pool(case):
+    pool = {}
+    for fname, params in sorted(case.get("funcs", {}).items()):
+        ns = {}
+        exec("def %s(%s): pass" % (fname, params), ns)
+        pool[fname] = ns[fname]
+    return pool
+
+
 def run_case(case):
+    """a case may carry a history of earlier verifications performed in the same process on
+    candidates that share function objects (case["funcs"]) with this one; only the last is reported"""
+    pool = make_pool(case)
+    for step in case.get("history", ()):
+        try:
+            run_step(step, pool, report=False)
+        except Exception:  # noqa
+            pass
+    return run_step(case, pool)
+
+
+def run_step(case, pool, report=True):
+    for fname, k in sorted(case.get("set_defaults", {}).items()):
+        pool[fname].__defaults__ = (None,) * k if k else None
     I, ISub, IBase, isrc = build_iface(case)
-    cand, call_through, csrc = build_candidate(case, I, ISub)
+    cand, call_through, csrc = build_candidate(case, I, ISub, pool)
     names = {"n%d" % i: i for i in range(len(case["elems"]))}
+    # description object -> smallest element index stored under it (taken from the class bodies'
+    # own dictionaries, not from the API under test)
+    by_desc = {}
+    for i in range(len(case["elems"]) - 1, -1, -1):
+        for src_iface in (I, IBase):
+            dsc = src_iface.direct("n%d" % i)
+            if dsc is not None:
+                by_desc[id(dsc)] = i
     res = {}
     vt = case["vt"]
     # 1. earlier look-ups, then the verification itself (nothing else touches the interface before)
@@ -238,11 +308,13 @@ def run_case(case):
         r = fn(I, cand, tentative=bool(case["tentative"]))
         res["out"] = ["ok"] if r is True else ["exc", "returned:" + repr(r)[:40]]
     except MultipleInvalid as e:
-        res["out"] = ["multi", [err_desc(x, names) for x in e.exceptions]]
+        res["out"] = ["multi", [err_desc(x, names, by_desc) for x in e.exceptions]]
     except Invalid as e:
-        res["out"] = ["single", err_desc(e, names)]
+        res["out"] = ["single", err_desc(e, names, by_desc)]
     except Exception as e:  # noqa
         res["out"] = ["exc", type(e).__name__]
+    if not report:
+        return None
     # 2. the inputs of the model / the Spec, as the public API reports them
     res["order"] = [names.get(n, -1) for n, _d in I.namesAndDescriptions(all=True)]
     tester = I.implementedBy if vt == "c" else I.providedBy
